@@ -19,7 +19,7 @@ class Limit(Exception):
     pass
 
 
-INLINE_STD = re.compile(r"^(?:[\w:<>,&* ]+? )?std::(exchange|__exchange|move|forward|addressof|__addressof|as_const|swap|min|max|launder)<")
+INLINE_STD = re.compile(r"^(?:[\w:<>,&* ]+? )?std::(exchange|__exchange|move|forward|addressof|__addressof|as_const|swap|iter_swap|min|max|launder)<")
 INLINE = re.compile(r"^(?:auto |void |decltype\(auto\) )?boost::multi::(?:detail::array_allocator|array_types|static_array|array_ref|array|subarray|"
                     r"const_subarray|move_subarray|elements_range_t)<")
 
